@@ -47,6 +47,11 @@ def case_from_tlc(net: dict, emb: str, seed: int) -> dict | None:
                 return None
         if kind == "soft":
             mods.append({"kind": "soft", "area": area * k * k})
+            if rects:                         # a soft module with a rectangle covering a part of its area (template)
+                mods[-1]["rects"] = [[c * k for c in r] for r in rects]
+            elif len(mods) % 4 == 1:          # ... and every fourth other one: a square of a quarter of its area at the origin
+                side = max(2, int(math.sqrt(area) * k / 4) * 2)
+                mods[-1]["rects"] = [[0, 0, side, side]]
         elif not rects:                       # template 4: a fixed terminal (a pin: no area, no rectangle, only a centre)
             mods.append({"kind": "fixed", "terminal": 1, "center": [c * k for c in net["p0"][len(mods)]]})
         else:
@@ -108,8 +113,9 @@ def random_case(rng: random.Random, emb: str) -> dict:
                 m["split"] = [rng.randint(1, 9), 10]
             if rng.random() < 0.2:
                 m["center"] = [rng.randint(0, wq), rng.randint(0, hq)]
-            elif rng.random() < 0.1:   # a soft module that already carries a rectangle (from a previous stage)
-                s = max(2, 2 * round(math.sqrt(area) / 2))
+            elif rng.random() < 0.3:   # a soft module that already carries a rectangle (from a previous stage); FPEF does
+                # not ask the rectangles to add up to the area: they cover 5..60 % of it (the disc is that of the AREA)
+                s = max(2, 2 * round(math.sqrt(area * rng.uniform(0.05, 0.6)) / 2))
                 x0, y0 = 2 * rng.randint(0, (wq - 2) // 4), 2 * rng.randint(0, (hq - 2) // 4)
                 m["rects"] = [[x0, y0, x0 + s, y0 + s]]
         else:
@@ -325,115 +331,132 @@ def run_case(case: dict) -> dict:
         edges = [[int(round(e.weight * 10000)), [idx[m.name] for m in e.modules]] for e in s.edges]
         return area, rects, edges
 
-    _a_loaded, rects0, _e_loaded = snap()
-    # the reference for "areas and nets unchanged" is the INPUT document, not the object after loading (building the
-    # graph in the constructor is part of spectral placement)
-    qa = lambda a: int(round(a / (u * u) / 1000))                             # noqa: E731
-    area0 = []
-    for d in tree["Modules"].values():
-        if "area" in d:
-            vals = [d["area"][k] for k in sorted(d["area"])] if isinstance(d["area"], dict) else [d["area"]]
-            tot = sum(d["area"].values()) if isinstance(d["area"], dict) else d["area"]
-        else:
-            tot = sum(r[2] * r[3] for r in d.get("rectangles", []))      # a terminal has no area
-            vals = [tot]
-        area0.append([qa(tot)] + [qa(v) for v in vals])
-    edges0 = [[int(round(w * 10000)), list(pins)] for w, pins in case["nets"]]
-    kind = [m["kind"] for m in case["mods"]]
-    # consistency of the harness's view with FRAME's (soft / hard / fixed as loaded)
-    for m, k in zip(s.modules, kind):
-        assert (m.is_fixed, m.is_hard and not m.is_fixed) == (k == "fixed", k == "hard"), "kind mismatch"
-    rad = [q(math.sqrt(m.area() / math.pi)) for m in s.modules]
-    p0 = [[q(m.center.x), q(m.center.y)] if k != "soft" else [0, 0] for m, k in zip(s.modules, kind)]
-    wq, hq = case["die"]
+    def place(wq, hq, ntrials, first):
+        a_obj, rects0, e_obj = snap()
+        # the reference for "areas and nets unchanged" is the INPUT document, not the object after loading (building the
+        # graph in the constructor is part of spectral placement)
+        qa = lambda a: int(round(a / (u * u) / 1000))                             # noqa: E731
+        area0 = []
+        for d in tree["Modules"].values():
+            if "area" in d:
+                vals = [d["area"][k] for k in sorted(d["area"])] if isinstance(d["area"], dict) else [d["area"]]
+                tot = sum(d["area"].values()) if isinstance(d["area"], dict) else d["area"]
+            else:
+                tot = sum(r[2] * r[3] for r in d.get("rectangles", []))      # a terminal has no area
+                vals = [tot]
+            area0.append([qa(tot)] + [qa(v) for v in vals])
+        edges0 = [[int(round(w * 10000)), list(pins)] for w, pins in case["nets"]]
+        if not first:      # a later placement of the same object: the reference is the object as the previous one left it
+            area0, edges0 = a_obj, e_obj
+        kind = [m["kind"] for m in case["mods"]]
+        # consistency of the harness's view with FRAME's (soft / hard / fixed as loaded)
+        for m, k in zip(s.modules, kind):
+            assert (m.is_fixed, m.is_hard and not m.is_fixed) == (k == "fixed", k == "hard"), "kind mismatch"
+        rad = [q(math.sqrt(m.area() / math.pi)) for m in s.modules]
+        p0 = []
+        for m, k in zip(s.modules, kind):
+            if k == "soft":
+                p0.append([0, 0])
+            else:          # (after a placement the centre of a hard module is dropped: its rectangles carry the position)
+                c = m.center if m.num_rectangles == 0 else copy.deepcopy(m).calculate_center_from_rectangles()
+                p0.append([q(c.x), q(c.y)])
 
-    # ---- wrappers on the module-level names (resolved at call time by the code under test)
-    trials, cur, state = [], [], {"span": None, "calls": 0}
-    have_norm, have_sld = hasattr(sa, "normalize"), hasattr(sp, "spectral_layout_die")
-    if have_norm:
-        orig_norm = sa.normalize
-
-        def w_norm(x, max_span, is_fixed):
-            before = list(x)
-            r = orig_norm(x, max_span, is_fixed)
-            if state["span"] is not max_span:          # max_span[d] is a distinct list per dimension
-                state["span"] = max_span
-                cur.append(_Sampler())
-            cur[-1].add(before, list(x), max_span, is_fixed)
-            state["calls"] += 1
-            return r
-        sa.normalize = w_norm
-    if have_sld:
-        orig_sld = sp.spectral_layout_die
-
-        def w_sld(adj, mass, size, initial, fixed):
-            cur.clear()
-            state["span"] = None
-            res = orig_sld(adj, mass, size, initial, fixed)
-            coord, wl, niter = res
-            state["abs_skip"] = max(state.get("abs_skip", 0), max((smp.abs_skip for smp in cur), default=0))
-            trials.append({"dims": [smp.sample() for smp in cur], "ncalls": [smp.n for smp in cur],
-                           "coord": [list(coord[0]), list(coord[1])], "wl": wl, "niter": list(niter)})
-            return res
-        sp.spectral_layout_die = w_sld
-
-    pyrandom.seed(case["seed"])
-    try:
-        s.spectral_layout(Shape(emb.length(wq), emb.length(hq)), case["trials"], False)
-    except Exception as e:  # the statement promises a placement for every seed: clause `returns`
-        import traceback
-        tb = traceback.extract_tb(e.__traceback__)[-1]
-        return {"status": "raised", "exc": f"{type(e).__name__}: {e}"[:300], "where": tb.name, "line": tb.lineno,
-                "trials_done": len(trials)}
-    finally:
+        # ---- wrappers on the module-level names (resolved at call time by the code under test)
+        trials, cur, state = [], [], {"span": None, "calls": 0}
+        have_norm, have_sld = hasattr(sa, "normalize"), hasattr(sp, "spectral_layout_die")
         if have_norm:
-            sa.normalize = orig_norm
+            orig_norm = sa.normalize
+
+            def w_norm(x, max_span, is_fixed):
+                before = list(x)
+                r = orig_norm(x, max_span, is_fixed)
+                if state["span"] is not max_span:          # max_span[d] is a distinct list per dimension
+                    state["span"] = max_span
+                    cur.append(_Sampler())
+                cur[-1].add(before, list(x), max_span, is_fixed)
+                state["calls"] += 1
+                return r
+            sa.normalize = w_norm
         if have_sld:
-            sp.spectral_layout_die = orig_sld
+            orig_sld = sp.spectral_layout_die
 
-    # ---- events
-    # one call before the loop + one per pass (a pass may end before its normalize: then one call less)
-    steps = int(have_norm and have_sld and len(trials) == case["trials"] and
-                all(len(t["dims"]) == 2 and all(nc in (ni, ni + 1) for nc, ni in zip(t["ncalls"], t["niter"])) for t in trials))
-    qv = lambda vec: [q(v) for v in vec]                                      # noqa: E731
-    ev = lambda t, d=0, k=0, a=(), b=(), w=0: {"t": t, "d": d, "k": k, "a": list(a), "b": list(b), "w": w}   # noqa: E731
-    events = []
-    max_exc = 0.0
-    for t in trials:
-        if steps:
-            events.append(ev("seed", a=qv(t["dims"][0][0][1]), b=qv(t["dims"][1][0][1])))
-            for d in (1, 2):
-                for (j, before, after, exc) in t["dims"][d - 1]:
-                    max_exc = max(max_exc, exc / u)
-                    events.append(ev("norm" if j == 0 else "step", d=d, k=j, a=qv(before), b=qv(after)))
-                if d == 1:
-                    events.append(ev("enddim", d=1))
-        events.append(ev("endtrial", a=qv(t["coord"][0]), b=qv(t["coord"][1]), w=int(round(t["wl"] / (1000 * u)))))
-    events.append(ev("commit"))
+            def w_sld(adj, mass, size, initial, fixed):
+                cur.clear()
+                state["span"] = None
+                res = orig_sld(adj, mass, size, initial, fixed)
+                coord, wl, niter = res
+                state["abs_skip"] = max(state.get("abs_skip", 0), max((smp.abs_skip for smp in cur), default=0))
+                trials.append({"dims": [smp.sample() for smp in cur], "ncalls": [smp.n for smp in cur],
+                               "coord": [list(coord[0]), list(coord[1])], "wl": wl, "niter": list(niter)})
+                return res
+            sp.spectral_layout_die = w_sld
 
-    # ---- the committed placement, through the public API
-    pos = []
-    for m, k in zip(s.modules, kind):
-        if k == "soft":
-            if m.center is None:
-                return {"status": "raised", "exc": f"NoCentre: soft module {m.name} has no centre after spectral_layout",
-                        "where": "spectral_layout", "line": 0, "trials_done": len(trials)}
-            pos.append([q(m.center.x), q(m.center.y)])
-        else:   # hard modules carry their position in their rectangles (the centre is dropped)
-            if m.num_rectangles == 0:     # a terminal: spectral_layout keeps (and rewrites) its centre
+        if first:
+            pyrandom.seed(case["seed"])
+        try:
+            s.spectral_layout(Shape(emb.length(wq), emb.length(hq)), ntrials, False)
+        except Exception as e:  # the statement promises a placement for every seed: clause `returns`
+            import traceback
+            tb = traceback.extract_tb(e.__traceback__)[-1]
+            return {"status": "raised", "exc": f"{type(e).__name__}: {e}"[:300], "where": tb.name, "line": tb.lineno,
+                    "trials_done": len(trials)}
+        finally:
+            if have_norm:
+                sa.normalize = orig_norm
+            if have_sld:
+                sp.spectral_layout_die = orig_sld
+
+        # ---- events
+        # one call before the loop + one per pass (a pass may end before its normalize: then one call less)
+        steps = int(have_norm and have_sld and len(trials) == ntrials and
+                    all(len(t["dims"]) == 2 and all(nc in (ni, ni + 1) for nc, ni in zip(t["ncalls"], t["niter"])) for t in trials))
+        qv = lambda vec: [q(v) for v in vec]                                      # noqa: E731
+        ev = lambda t, d=0, k=0, a=(), b=(), w=0: {"t": t, "d": d, "k": k, "a": list(a), "b": list(b), "w": w}   # noqa: E731
+        events = []
+        max_exc = 0.0
+        for t in trials:
+            if steps:
+                events.append(ev("seed", a=qv(t["dims"][0][0][1]), b=qv(t["dims"][1][0][1])))
+                for d in (1, 2):
+                    for (j, before, after, exc) in t["dims"][d - 1]:
+                        max_exc = max(max_exc, exc / u)
+                        events.append(ev("norm" if j == 0 else "step", d=d, k=j, a=qv(before), b=qv(after)))
+                    if d == 1:
+                        events.append(ev("enddim", d=1))
+            events.append(ev("endtrial", a=qv(t["coord"][0]), b=qv(t["coord"][1]), w=int(round(t["wl"] / (1000 * u)))))
+        events.append(ev("commit"))
+
+        # ---- the committed placement, through the public API
+        pos = []
+        for m, k in zip(s.modules, kind):
+            if k == "soft":
                 if m.center is None:
-                    return {"status": "raised", "exc": f"NoCentre: terminal {m.name} lost its centre", "where": "spectral_layout",
-                            "line": 0, "trials_done": len(trials)}
+                    return {"status": "raised", "exc": f"NoCentre: soft module {m.name} has no centre after spectral_layout",
+                            "where": "spectral_layout", "line": 0, "trials_done": len(trials)}
                 pos.append([q(m.center.x), q(m.center.y)])
-                continue
-            c = copy.deepcopy(m).calculate_center_from_rectangles()
-            pos.append([q(c.x), q(c.y)])
-    area1, rects1, edges1 = snap()
-    return {"status": "ok", "steps": steps, "half": [wq // 2, hq // 2], "kind": kind, "area": area0, "rad": rad,
-            "rects": rects0, "p0": p0, "edges": edges0, "trials": case["trials"], "events": events,
-            "final": {"pos": pos, "rects": rects1, "area": area1, "edges": edges1},
-            "info": {"abs_skip": state.get("abs_skip", 0), "calls": state["calls"], "max_excess": max_exc, "trials_seen": len(trials),
-                     "niter": [t["niter"] for t in trials]}}
+            else:   # hard modules carry their position in their rectangles (the centre is dropped)
+                if m.num_rectangles == 0:     # a terminal: spectral_layout keeps (and rewrites) its centre
+                    if m.center is None:
+                        return {"status": "raised", "exc": f"NoCentre: terminal {m.name} lost its centre", "where": "spectral_layout",
+                                "line": 0, "trials_done": len(trials)}
+                    pos.append([q(m.center.x), q(m.center.y)])
+                    continue
+                c = copy.deepcopy(m).calculate_center_from_rectangles()
+                pos.append([q(c.x), q(c.y)])
+        area1, rects1, edges1 = snap()
+        return {"status": "ok", "steps": steps, "half": [wq // 2, hq // 2], "kind": kind, "area": area0, "rad": rad,
+                "rects": rects0, "p0": p0, "edges": edges0, "trials": ntrials, "events": events,
+                "final": {"pos": pos, "rects": rects1, "area": area1, "edges": edges1},
+                "info": {"abs_skip": state.get("abs_skip", 0), "calls": state["calls"], "max_excess": max_exc, "trials_seen": len(trials),
+                         "niter": [t["niter"] for t in trials]}}
+
+    obs = place(case["die"][0], case["die"][1], case["trials"], True)
+    if obs["status"] == "ok" and case.get("again"):
+        # object lifecycle: the SAME Spectral object is placed again (same die, or another die shape); each placement is
+        # judged on its own
+        wq2, hq2, n2 = case["again"]
+        obs["again"] = place(wq2, hq2, n2, False)
+    return obs
 
 
 # ------------------------------------------------------------------------------------------------ decision
@@ -447,9 +470,16 @@ def decide(ctx: Ctx, cases: list[dict]):
     st = ctx.extra.setdefault("runs", {"total": 0, "returned": 0, "no_result": 0, "trials_observed": 0,
                                        "normalize_calls_observed": 0, "events_judged": 0, "without_step_events": 0,
                                        "max_excess_over_span_micro_units": 0.0})
+    pairs = []
     for c, (status, val) in zip(cases, results):
+        pairs.append((c, status, val))
+        if status == "ok" and isinstance(val, dict) and "again" in val:          # the second placement of the same object
+            pairs.append(({**c, "round": 2}, "ok", val.pop("again")))
+    st["second_placements"] = st.get("second_placements", 0)
+    for c, status, val in pairs:
         st["total"] += 1
-        feat = {"emb": c["emb"], "src": c["src"], "motif": c.get("motif", "")}
+        st["second_placements"] += int(c.get("round") == 2)
+        feat = {"emb": c["emb"], "src": c["src"], "motif": c.get("motif", ""), "round": c.get("round", 1)}
         if status != "ok":
             st["no_result"] += 1
             ctx.violation("returns", c, {"status": status}, {**feat, "exc": status})
@@ -493,7 +523,7 @@ def decide(ctx: Ctx, cases: list[dict]):
             else:
                 detail["a"], detail["b"] = e["a"], e["b"]
             ctx.violation(clause, c, detail, {"emb": c["emb"], "src": c["src"], "event": e["t"], "motif": c.get("motif", ""),
-                                              "abs_threshold_skip": skipflag[key]})
+                                              "abs_threshold_skip": skipflag[key], "round": c.get("round", 1)})
         for (l, clause) in v["drift"]:
             ctx.model_drift(f"{clause} at {t['events'][l - 1]['t']}")
     for t in list(traces.values())[:2]:
@@ -509,10 +539,11 @@ def run(ctx: Ctx) -> int:
         return ctx.finish("model_checking", "replay of one recorded case")
     tier = ctx.tier
     quick = tier == "quick"
-    tlc.model_check(ctx, "SpectralMC", f"Spectral_mc_{tier}", vacuity_ignore=("EmitCase", "EndTrialKeep"))
-    tlc.model_check(ctx, "SpectralMC", f"Spectral_mc_{tier}_b", vacuity_ignore=("EmitCase",))
+    tlc.model_check(ctx, "SpectralMC", f"Spectral_mc_{tier}", vacuity_ignore=("EmitCase", "EndTrialKeep", "Again"))
+    tlc.model_check(ctx, "SpectralMC", f"Spectral_mc_{tier}_b", vacuity_ignore=("EmitCase", "Again"))
+    tlc.model_check(ctx, "SpectralMC", f"Spectral_mc_{tier}_r", vacuity_ignore=("EmitCase", "EndTrialKeep"))     # placed twice
     if not quick:
-        tlc.model_check(ctx, "SpectralMC", "Spectral_mc_thorough_c", vacuity_ignore=("EmitCase", "EndTrialKeep"))
+        tlc.model_check(ctx, "SpectralMC", "Spectral_mc_thorough_c", vacuity_ignore=("EmitCase", "EndTrialKeep", "Again"))
     nets = tlc.generate(ctx, "SpectralMC", f"Spectral_gen_{tier}")
     nets.sort(key=canon)
     rng = random.Random(ctx.seed * 1000003 + 14)
@@ -540,6 +571,12 @@ def run(ctx: Ctx) -> int:
     nfit = 32 if quick else 400
     cases += [exact_fit_case(rng, EMB_ORDER[i % len(EMB_ORDER)]) for i in range(nfit)]
     ctx.extra["cases_exact_fit_motif"] = nfit
+    # object lifecycles: every third case places the same Spectral object a second time, on the same die or on the die
+    # with width and height exchanged (the discs still fit: the smaller side is the same)
+    for i, c in enumerate(cases):
+        if i % 4 == 0 and c.get("motif") != "exact_fit":
+            w2, h2 = c["die"] if i % 8 == 0 else (c["die"][1], c["die"][0])
+            c["again"] = [w2, h2, 1]
     decide(ctx, cases)
     ctx.extra["embeddings"] = EMB_ORDER
     ctx.assumptions += [
